@@ -79,10 +79,25 @@ pub open spec fn verdict_fit(c: Conflict, ids: IdsT, reads: RwsT, writes: RwsT, 
             || exists|g: int| 0 <= g < ids[stage].len() && res_conflict(#[trigger] reads[stage][g]@, writes[stage][g]@, nr, nw),
     }
 }
-pub open spec fn acc_sound(c: Conflict, ids: IdsT, reads: RwsT, writes: RwsT, stage: int, nr: Seq<ResourceId>, nw: Seq<ResourceId>, dep: Seq<SystemId>, n: int) -> bool {
+// the two halves of "a group is hit": a resource conflict (C01) / a pending dependency sits in it (C02).  The loop invariant of
+// find_conflict is stated per half, so that a change to one test does not fail the other property's obligation
+pub open spec fn res_at(reads: RwsT, writes: RwsT, stage: int, g: int, nr: Seq<ResourceId>, nw: Seq<ResourceId>) -> bool {
+    res_conflict(reads[stage][g]@, writes[stage][g]@, nr, nw)
+}
+pub open spec fn dep_at(ids: IdsT, stage: int, g: int, dep: Seq<SystemId>) -> bool {
+    inter(dep, ids[stage][g]@)
+}
+pub open spec fn acc_sound_res(c: Conflict, reads: RwsT, writes: RwsT, stage: int, nr: Seq<ResourceId>, nw: Seq<ResourceId>, n: int) -> bool {
     match c {
-        Conflict::None => forall|g: int| 0 <= g < n ==> !#[trigger] hit_at(ids, reads, writes, stage, g, nr, nw, dep),
-        Conflict::Single(h) => 0 <= h < n && forall|g: int| 0 <= g < n && g != h ==> !#[trigger] hit_at(ids, reads, writes, stage, g, nr, nw, dep),
+        Conflict::None => forall|g: int| 0 <= g < n ==> !#[trigger] res_at(reads, writes, stage, g, nr, nw),
+        Conflict::Single(h) => 0 <= h < n && forall|g: int| 0 <= g < n && g != h ==> !#[trigger] res_at(reads, writes, stage, g, nr, nw),
+        Conflict::Multiple => true,
+    }
+}
+pub open spec fn acc_sound_dep(c: Conflict, ids: IdsT, stage: int, dep: Seq<SystemId>, n: int) -> bool {
+    match c {
+        Conflict::None => forall|g: int| 0 <= g < n ==> !#[trigger] dep_at(ids, stage, g, dep),
+        Conflict::Single(h) => 0 <= h < n && forall|g: int| 0 <= g < n && g != h ==> !#[trigger] dep_at(ids, stage, g, dep),
         Conflict::Multiple => true,
     }
 }
@@ -94,19 +109,19 @@ pub open spec fn acc_complete(c: Conflict, ids: IdsT, reads: RwsT, writes: RwsT,
     }
 }
 pub proof fn lemma_acc_sound_iso(c: Conflict, ids: IdsT, reads: RwsT, writes: RwsT, stage: int, nr: Seq<ResourceId>, nw: Seq<ResourceId>, dep: Seq<SystemId>)
-    requires acc_sound(c, ids, reads, writes, stage, nr, nw, dep, ids[stage].len() as int)
+    requires acc_sound_res(c, reads, writes, stage, nr, nw, ids[stage].len() as int)
     ensures verdict_iso(c, ids, reads, writes, stage, nr, nw)
 {
     let n = ids[stage].len() as int;
     match c {
         Conflict::None => {
             assert forall|g: int| 0 <= g < n implies !res_conflict(#[trigger] reads[stage][g]@, writes[stage][g]@, nr, nw) by {
-                assert(!hit_at(ids, reads, writes, stage, g, nr, nw, dep));
+                assert(!res_at(reads, writes, stage, g, nr, nw));
             }
         }
         Conflict::Single(h) => {
             assert forall|g: int| 0 <= g < n && g != h implies !res_conflict(#[trigger] reads[stage][g]@, writes[stage][g]@, nr, nw) by {
-                assert(!hit_at(ids, reads, writes, stage, g, nr, nw, dep));
+                assert(!res_at(reads, writes, stage, g, nr, nw));
             }
         }
         Conflict::Multiple => {}
@@ -115,15 +130,15 @@ pub proof fn lemma_acc_sound_iso(c: Conflict, ids: IdsT, reads: RwsT, writes: Rw
 // the verdict finally returned is `c` unless the dependency test overrides it with Multiple
 pub proof fn lemma_acc_sound_dep(c: Conflict, dc: bool, ids: IdsT, reads: RwsT, writes: RwsT, stage: int, nr: Seq<ResourceId>, nw: Seq<ResourceId>, dep: Seq<SystemId>)
     requires
-        acc_sound(c, ids, reads, writes, stage, nr, nw, dep, ids[stage].len() as int),
-        dc ==> exists|g: int| 0 <= g < ids[stage].len() && #[trigger] hit_at(ids, reads, writes, stage, g, nr, nw, dep) && inter(dep, ids[stage][g]@),
+        acc_sound_dep(c, ids, stage, dep, ids[stage].len() as int),
+        dc ==> exists|g: int| 0 <= g < ids[stage].len() && #[trigger] dep_at(ids, stage, g, dep),
     ensures
         !((dc && dep.len() > 1) || (!dc && dep.len() != 0)) ==> verdict_dep(c, ids, stage, dep)
 {
     let n = ids[stage].len() as int;
     if !((dc && dep.len() > 1) || (!dc && dep.len() != 0)) {
         if dep.len() != 0 {
-            let g = choose|g: int| 0 <= g < n && #[trigger] hit_at(ids, reads, writes, stage, g, nr, nw, dep) && inter(dep, ids[stage][g]@);
+            let g = choose|g: int| 0 <= g < n && #[trigger] dep_at(ids, stage, g, dep);
             match c {
                 Conflict::None => { assert(false); }
                 Conflict::Single(h) => {
